@@ -32,6 +32,8 @@ type group struct {
 	thread int
 	done   bool
 	sel    int
+	hbFrom uint64 // history of the partner that completed this group
+	step   int    // step at which the partner completed it
 }
 
 type chanCore struct {
@@ -41,6 +43,7 @@ type chanCore struct {
 	closed bool
 	recvq  []*waiter
 	sendq  []*waiter
+	hb     uint64
 }
 
 // Chan is the shim for chan T.
@@ -68,6 +71,7 @@ func (c *Chan[T]) String() string {
 
 // Case is one arm of a select.
 type Case interface {
+	cell() *uint64
 	ready(self *group) bool
 	exec(self *group)           // perform the operation now (must be ready)
 	register(g *group, idx int) // enqueue as waiter
@@ -147,7 +151,8 @@ func (r *RecvCase[T]) unregister(g *group) {
 	}
 }
 
-func (r *RecvCase[T]) desc() string { return "recv " + r.C.String() }
+func (r *RecvCase[T]) desc() string  { return "recv " + r.C.String() }
+func (r *RecvCase[T]) cell() *uint64 { return &r.C.core.hb }
 
 // ---- send case ----
 
@@ -196,7 +201,8 @@ func (s *SendCase[T]) unregister(g *group) {
 	}
 }
 
-func (s *SendCase[T]) desc() string { return "send " + s.C.String() }
+func (s *SendCase[T]) desc() string  { return "send " + s.C.String() }
+func (s *SendCase[T]) cell() *uint64 { return &s.C.core.hb }
 
 // ---- external (native) channel case: only "closed-style" channels are supported ----
 
@@ -240,6 +246,7 @@ func (e *ExtCase[T]) exec(self *group)           { var z T; e.V, e.OK = z, false
 func (e *ExtCase[T]) register(g *group, idx int) {}
 func (e *ExtCase[T]) unregister(g *group)        {}
 func (e *ExtCase[T]) desc() string               { return "recv ext" }
+func (e *ExtCase[T]) cell() *uint64              { return &vrt.Cur().CancelCell }
 
 func cast[T any](v any) T {
 	if v == nil {
@@ -263,6 +270,10 @@ func dropGroup(q []*waiter, g *group) []*waiter {
 func complete(w *waiter) {
 	w.g.done = true
 	w.g.sel = w.idx
+	if x := vrt.Cur(); x != nil {
+		w.g.hbFrom = x.HB()
+		w.g.step = x.Steps
+	}
 }
 
 // Select performs a select over cases. It returns the index of the chosen case, or -1
@@ -315,6 +326,10 @@ func Select(hasDefault bool, cases ...Case) int {
 		c.unregister(g)
 	}
 	if g.done {
+		// a partner performed the operation for us: absorb its history
+		x.Absorb(g.hbFrom)
+		x.Absorb(0x5e1 + uint64(g.sel))
+		x.Me().LastCommStep = g.step
 		return g.sel
 	}
 	var ready []int
@@ -325,6 +340,11 @@ func Select(hasDefault bool, cases ...Case) int {
 	}
 	if len(ready) == 0 {
 		if hasDefault {
+			// the default arm was taken because nothing was ready: that observation
+			// depends on the state of every channel polled
+			for _, c := range cases {
+				x.Touch(c.cell(), 0xdef)
+			}
 			return -1
 		}
 		panic("vchan: scheduled a select with nothing ready")
@@ -333,6 +353,8 @@ func Select(hasDefault bool, cases ...Case) int {
 	if len(ready) > 1 {
 		k = x.Choose(len(ready), nil, "select-arm")
 	}
+	x.Touch(cases[ready[k]].cell(), 0x5e1+uint64(ready[k]))
+	x.Me().LastCommStep = x.Steps
 	cases[ready[k]].exec(g)
 	return ready[k]
 }
@@ -391,6 +413,7 @@ func (c *Chan[T]) Close() {
 		panic("close of closed channel")
 	}
 	c.core.closed = true
+	x.Touch(&c.core.hb, 0xc105e)
 	// blocked receivers complete with the zero value; blocked senders will panic when run
 	for _, w := range c.core.recvq {
 		if !w.g.done {
@@ -409,6 +432,7 @@ func (c *Chan[T]) Len() int {
 		return 0
 	}
 	x.Yield(nil, "len "+c.String())
+	x.Touch(&c.core.hb, 0x1e4)
 	return len(c.buf)
 }
 
